@@ -284,7 +284,7 @@ var opTable = map[string]opSpec{
 		c.Sort() // working on the copy must not touch the original
 		return append(fbits(c.Xs), fbits(c.Weights)...)
 	}},
-	"S.Sort": {[]string{"s"}, 0, true, func(o []*obj, p []float64) []uint64 { o[0].smp.Sort(); return nil }},
+	"S.Sort": {[]string{"s"}, 0, true, func(o []*obj, p []float64) []uint64 { allowMutation(); o[0].smp.Sort(); return nil }},
 	"SampleCI": {[]string{"s"}, 2, false, func(o []*obj, p []float64) []uint64 {
 		if o[0].smp.Weights != nil || len(o[0].smp.Xs) == 0 {
 			return nil
@@ -505,7 +505,7 @@ var opTable = map[string]opSpec{
 		return r
 	}},
 	"Dot":     {[]string{"g"}, 0, false, func(o []*obj, p []float64) []uint64 { return strBits(graphout.Dot{}.Sprint(o[0].g)) }},
-	"Reverse": {[]string{"i"}, 0, true, func(o []*obj, p []float64) []uint64 { graphalg.Reverse(o[0].ints); return nil }},
+	"Reverse": {[]string{"i"}, 0, true, func(o []*obj, p []float64) []uint64 { allowMutation(); graphalg.Reverse(o[0].ints); return nil }},
 	"Dom": {[]string{"i"}, 0, false, func(o []*obj, p []float64) []uint64 {
 		// parent array with entries in [-1, n)
 		id := make([]int, len(o[0].ints))
